@@ -105,8 +105,9 @@ def tlc(workdir, module, cfg, workers=1, timeout=1800, xmx="4g", extra=(), deque
         cmd = ["java", "-XX:+UseParallelGC", "-XX:ParallelGCThreads=4", "-Xmx" + xmx, "-Xss512m"]
     if deque:
         cmd.append("-Dtlc2.tool.queue.IStateQueue=StateDeque")
+    # -seed: TLC's RandomSubset (sampled case sets of M_TOK) must be reproducible; VERIF_SEED varies it
     cmd += ["-cp", JAVA_CP, "tlc2.TLC", "-workers", str(workers), "-metadir", os.path.join(workdir, "md-" + module),
-            "-config", cfg] + list(extra) + [module + ".tla"]
+            "-seed", str(1000 + int(os.environ.get("VERIF_SEED", "0") or 0)), "-config", cfg] + list(extra) + [module + ".tla"]
     try:
         p = subprocess.run(cmd, cwd=workdir, capture_output=True, text=True, timeout=timeout)
     except subprocess.TimeoutExpired:
